@@ -70,6 +70,10 @@ fn real_main(args: &[String]) -> i32 {
             let p = |i: usize| args[i].parse::<u64>().unwrap_or(0);
             engine::worker(check, tier, p(4), p(5), p(6).max(1), p(7), std::path::Path::new(&args[8]))
         }
+        "c19-fresh" => {
+            world_a::install_panic_hook();
+            props::c19::fresh_helper(args.get(2).map(|s| s == "stack").unwrap_or(false))
+        }
         "miri-c19" => {
             // No panic hook, no capture: Miri reports undefined behaviour on its own
             let n = args.get(2).and_then(|s| s.parse::<u64>().ok()).unwrap_or(4);
